@@ -78,7 +78,7 @@ OTHER_OPS = [
     "grid_nr_not_integer", "grid_dr_not_number", "dlpoly_nr_not_multiple_of_4",
     "pair_key_no_dash", "pair_key_three_species", "missing_pair_section",
     "fs_key_without_arrow", "fs_key_two_arrows", "missing_embed_section", "missing_density_section",
-    "species_without_data", "species_key_without_dot", "species_mass_not_number", "species_number_not_integer",
+    "species_without_data", "species_data_removed", "species_key_without_dot", "species_mass_not_number", "species_number_not_integer",
     "custom_wrong_arity", "table_form_with_params", "formula_bad_signature", "formula_signature_no_paren",
     "formula_unparsable", "formula_undefined_symbol", "formula_unknown_function", "formula_calls_wrong_arity",
     "formula_param_reserved_word", "formula_param_not_identifier",
@@ -102,7 +102,7 @@ def _case(draw, op, light=False):
     if op in ("fs_key_without_arrow", "fs_key_two_arrows"):
         targets = ["setfl_fs", "DL_POLY_EAM_fs", "excel_eam_fs"]
     elif op in ("missing_embed_section", "missing_density_section", "species_without_data", "species_mass_not_number",
-                "species_number_not_integer", "species_key_without_dot"):
+                "species_number_not_integer", "species_key_without_dot", "species_data_removed"):
         targets = sorted(gen.EAM_TARGETS)
     elif op == "dlpoly_nr_not_multiple_of_4":
         targets = ["DLPOLY", "DL_POLY"]
@@ -111,7 +111,8 @@ def _case(draw, op, light=False):
         # choice buffer at 8 kB, which the full generator exceeds)
         m = draw(gen.any_model(targets, 1, 2, depth=0, tables=False, customs=False))
     else:
-        m = draw(gen.any_model(targets, 1, 3, depth=1, tables=False))
+        m = draw(gen.any_model(targets, 1, 3, depth=1, tables=False,
+                               pool=gen.NOT_ELEMENTS + ["Al"] if op == "species_data_removed" else None))
     return {"model": m, "op": op, "site": draw(st.integers(0, 60)), "route": "inproc"}
 
 
@@ -189,7 +190,7 @@ def mutate(case):
     if op in ("fs_key_without_arrow", "fs_key_two_arrows") and kind != "fs":
         return None
     if op in ("missing_embed_section", "missing_density_section", "species_without_data", "species_mass_not_number",
-              "species_number_not_integer", "species_key_without_dot") and kind == "pair":
+              "species_number_not_integer", "species_key_without_dot", "species_data_removed") and kind == "pair":
         return None
     if op == "dlpoly_nr_not_multiple_of_4" and m["target"] not in ("DLPOLY", "DL_POLY"):
         return None
@@ -252,8 +253,19 @@ def mutate(case):
     elif op == "missing_density_section":
         secs[:] = [s for s in secs if s[0] != "EAM-Density"]
     elif op == "species_without_data":
+        # a label other models of this run do define (with their own [Species] data): what an earlier model declared
+        # says nothing about this one
         emb = _sec(secs, "EAM-Embed")
-        emb[1].append(["Qx", "as.constant 1"])
+        free = [x for x in gen.NOT_ELEMENTS + ["Qx"] if x not in m["elements"]]
+        emb[1].append([free[site % len(free)], "as.constant 1"])
+    elif op == "species_data_removed":
+        sp = _sec(secs, "Species")
+        from vlib import eamtab
+        inv = [e for e in m["elements"] if e in gen.NOT_ELEMENTS and e in eamtab.element_set(m)]
+        if sp is None or not inv:
+            return None
+        el = inv[site % len(inv)]
+        sp[1][:] = [[k, val] for k, val in sp[1] if not k.startswith(el + ".")]
     elif op == "species_key_without_dot":
         sp = _sec(secs, "Species")
         if sp is None:
